@@ -52,3 +52,54 @@ func ruleTupleConverters(e *Engine, r *Reporter) {
 	})
 	r.Check(kinds["User_Object"] && kinds["User_Userset"] && kinds["User_Wildcard"], "pkg/tuple.StringToUserProto produces all variants", e.pos(sp.Pos()), fmt.Sprintf("%v", keysOf(kinds)), fmt.Sprintf("StringToUserProto no longer produces all three variants: %v", keysOf(kinds)))
 }
+
+// ruleControlCharsRejectedUnconditionally: the IsValid* scanners reject control characters with
+// unicode.IsControl applied to every rune: the call is not made conditional on the rune's value (a "fast path"
+// comparison in front of it is how DEL or C1 controls slip through), and a true result returns false.
+func ruleControlCharsRejectedUnconditionally(e *Engine, r *Reporter) {
+	r.Rule("control-chars-rejected", "every IsValid* scanner in pkg/tuple applies unicode.IsControl to every rune of its input unconditionally and rejects on a hit", 4)
+	n := 0
+	for _, fn := range e.Fns {
+		if short(pkgOf(fn)) != "pkg/tuple" || !strings.HasPrefix(fn.Name(), "IsValid") || fn.Parent() != nil {
+			continue
+		}
+		eachInstr(fn, false, func(in ssa.Instruction) {
+			c, ok := in.(*ssa.Call)
+			if !ok {
+				return
+			}
+			g := c.Call.StaticCallee()
+			if g == nil || g.Name() != "IsControl" || g.Pkg == nil || g.Pkg.Pkg.Path() != "unicode" {
+				return
+			}
+			n++
+			var conds []string
+			for _, f := range controlFacts(in.Block()) {
+				if f.If != nil && loopHeader(f.If.Block()) == f.If.Block() {
+					continue // the scan loop's own continuation test
+				}
+				conds = append(conds, describeFact(f))
+			}
+			r.Check(len(conds) == 0, fname(fn)+" | IsControl on every rune", e.instrPos(in), "unconditional inside the scan loop", fmt.Sprintf("unicode.IsControl is only consulted when %v: control characters outside that range are accepted into identifiers", conds))
+			// a hit rejects
+			rej := false
+			for _, ref := range *c.Referrers() {
+				ifi, ok := ref.(*ssa.If)
+				if !ok {
+					continue
+				}
+				for _, in2 := range ifi.Block().Succs[0].Instrs {
+					if ret, ok := in2.(*ssa.Return); ok && len(ret.Results) == 1 {
+						if b, ok := constBool(ret.Results[0]); ok && !b {
+							rej = true
+						}
+					}
+				}
+			}
+			r.Check(rej, fname(fn)+" | control character rejects", e.instrPos(in), "returns false", "a control character no longer makes the scanner return false")
+		})
+	}
+	if n == 0 {
+		blind("control-chars-rejected: no unicode.IsControl call in pkg/tuple IsValid* functions")
+	}
+}
